@@ -98,7 +98,11 @@ class Model:
     def __init__(self, lang: str, cfg: typing.Optional[dict]):
         sec = dict(_yaml()["nunavut.lang." + lang])
         if cfg:
-            sec.update(cfg)
+            for k_, v_ in cfg.items():
+                if isinstance(v_, dict) and isinstance(sec.get(k_), dict):
+                    sec[k_] = dict(sec[k_], **v_)  # configuration maps are merged key-wise (C13), lists are replaced
+                else:
+                    sec[k_] = v_
         self.lang = lang
         self.cfg = cfg or None
         self.reserved: typing.Set[str] = set(map(str, sec.get("reserved_identifiers") or []))
@@ -760,7 +764,7 @@ def check_case(ctx: core.Ctx, case: dict, cc_tokens: typing.Optional[dict], vari
                     if old is None or _case_order(ex) < _case_order(old):
                         cc_tokens[lang][v.cc_token] = ex
         res += [(sg, what) for sg, what, _ in signatures(m, verdicts)]
-    if cfg and "reserved_identifiers" in cfg:
+    if cfg and "reserved_identifiers" in cfg and isinstance(cfg["reserved_identifiers"], list):
         # a context with a user-extended reserved list has just been used in this process: a language object created NOW with
         # the default configuration must treat the added words like any process would (the result depends only on the input)
         from nunavut.lang import LanguageContextBuilder
@@ -835,6 +839,14 @@ def override_case_strategy(words):
             extra = draw(st.lists(st.sampled_from(["payload", "a", "zX", "value_9", "Z", "x0", "_E"]), min_size=1, max_size=3, unique=True))
             c = dict(c) if draw(st.booleans()) else {}
             c["reserved_identifiers"] = get_model(lang, None).configured_reserved + extra
+        elif draw(st.integers(0, 2)) == 0:
+            # user-added reserved patterns for single identifier categories (documented key reserved_token_patterns_by_type);
+            # inputs that match them are among the inputs
+            cats = draw(st.lists(st.sampled_from(["function", "typedef", "macro", "enum"]), min_size=1, max_size=2, unique=True))
+            pats = {"function": "^(get|set)_[a-z]+$", "typedef": "^tmp[0-9]*$", "macro": "^[A-Z]+_GUARD$", "enum": "^k[A-Z]"}
+            c = dict(c) if draw(st.booleans()) else {}
+            c["reserved_token_patterns_by_type"] = {k_: [pats[k_]] for k_ in cats}
+            extra = [w for k_ in cats for w in {"function": ["get_speed", "set_x"], "typedef": ["tmp", "tmp12"], "macro": ["HEADER_GUARD"], "enum": ["kRed"]}[k_]]
         m = get_model(lang, c)
         base = draw(st.lists(input_strategy(words), min_size=1, max_size=4)) + extra
         items = []
